@@ -203,6 +203,7 @@ class Device(pn53x.Device):
         self.mute()
         super(Device, self).close()
 
+    @pn53x.chipset_error_is_ioerror
     def mute(self):
         self.chipset.reset_mode()
         super(Device, self).mute()
@@ -247,6 +248,7 @@ class Device(pn53x.Device):
         """
         return super(Device, self).sense_ttf(target)
 
+    @pn53x.chipset_error_is_ioerror
     def sense_dep(self, target):
         """Search for a DEP Target in active or passive communication mode.
 
@@ -279,6 +281,7 @@ class Device(pn53x.Device):
         info = "{device} does not support listen as Type F Target"
         raise nfc.clf.UnsupportedTargetError(info.format(device=self))
 
+    @pn53x.chipset_error_is_ioerror
     def listen_dep(self, target, timeout):
         """Listen *timeout* seconds to become initialized as a DEP Target.
 
